@@ -434,9 +434,22 @@ impl RefCountedTempFile {
     }
 }
 
+/// verification accessor (cfg-only): a struct-level `RefCountedTempFile::clone()` of a file that
+/// was returned by `DiskManager::create_tmp_file` of a manager *without* a custom factory.
+#[cfg(datafusion_verif)]
+impl RefCountedTempFile {
+    pub fn verif_clone_of(file: &Arc<dyn SpillFile>) -> RefCountedTempFile {
+        // SAFETY: without a custom factory `create_tmp_file` only ever returns this type
+        let p = Arc::as_ptr(file) as *const RefCountedTempFile;
+        unsafe { (*p).clone() }
+    }
+}
+
 /// When the temporary file is dropped, subtract its disk usage from the disk manager's total
 impl Drop for RefCountedTempFile {
     fn drop(&mut self) {
+        #[cfg(datafusion_verif)]
+        datafusion_common::verif::point("dm_drop", &[]);
         // Only subtract disk usage when this is the last reference to the file
         // Check if we're the last one by seeing if there's only one strong reference
         // left to the underlying tempfile (the one we're holding)
@@ -482,12 +495,16 @@ impl std::io::Write for FileSpillWriter {
             return Ok(0);
         }
 
+        #[cfg(datafusion_verif)]
+        datafusion_common::verif::point("dm_w_add", &[len as i64]);
         let new_global = self
             .disk_manager
             .used_disk_space
             .fetch_add(len, Ordering::Relaxed)
             + len;
 
+        #[cfg(datafusion_verif)]
+        datafusion_common::verif::point("dm_w_check", &[new_global as i64]);
         let limit = self.disk_manager.max_temp_directory_size();
 
         if new_global > limit {
@@ -509,6 +526,8 @@ impl std::io::Write for FileSpillWriter {
         }
         self.file.write_all(buf).map_err(DataFusionError::IoError)?;
 
+        #[cfg(datafusion_verif)]
+        datafusion_common::verif::point("dm_w_file", &[len as i64]);
         self.current_file_disk_usage
             .fetch_add(len, Ordering::Relaxed);
 
